@@ -1,5 +1,7 @@
 package template
 
+import "path"
+
 type TypesPackage interface {
 	Name() string
 	Path() string
@@ -19,6 +21,13 @@ func NewPackage(pkg TypesPackage) *Package {
 
 func (p *Package) ImportStatement() string {
 	if p.Alias == "" {
+		// An import whose package name differs from the last element of its path is
+		// written with an explicit name. Tools that cannot load the package (goimports
+		// guesses the name from the path first) would otherwise take the qualifier
+		// for another package, e.g. rewrite the import to net/http.
+		if name := p.pkg.Name(); name != "" && name != path.Base(p.Path()) {
+			return name + ` "` + p.Path() + `"`
+		}
 		return `"` + p.Path() + `"`
 	}
 	return p.Alias + ` "` + p.Path() + `"`
